@@ -79,6 +79,24 @@ def lensOf (l : Line) : List (String × Nat) :=
 
 def showCls : Cls → String | .ok => "ok" | .err => "err" | .panic => "panic" | .nilnil => "nilnil"
 
+/-- the functions reachable from `todo` through the regenerated static call edges -/
+def callReach (fuel : Nat) (todo seen : List String) : List String :=
+  match fuel, todo with
+  | 0, _ => seen
+  | _, [] => seen
+  | fuel + 1, n :: rest =>
+    if seen.contains n then callReach fuel rest seen
+    else callReach fuel (rest ++ (GenC09.boundCalls.filter (·.1 == n)).map (·.2)) (n :: seen)
+
+/-- a slice / index expression that the entailment check does not discharge (audited ones aside) or whose loop-carried
+    index lacks a bound, in a function reachable from `fn` -/
+def unsafeSiteFrom (fn : String) : Bool :=
+  let fs := callReach 4000 [fn] []
+  GenC09.boundSites.any fun s => fs.contains s.fn && !(auditedBoundSites.contains (s.fn, s.expr)) && (!s.safe || !s.loopGuarded)
+
+/-- every client-side helper reads the provider's answer through `httphelper.HttpRequest` -/
+def httpRequestMayPanic : Bool := unsafeSiteFrom "http.HttpRequest"
+
 def modelLine (l : Line) : String × Bool :=
   let F := genFacts
   let obs := str l "obs"
@@ -151,13 +169,18 @@ def modelLine (l : Line) : String × Bool :=
     (if p then "may-panic" else "no-panic", p || obs != "panic")
   | "client" =>
     let fn := str l "fn"
-    if fn == "" then ("no-panic", obs != "panic") else
+    -- an unguarded slice / index expression on the way of the provider's answer (regenerated bound sites + call edges)
+    let may := httpRequestMayPanic || (fn != "" && unsafeSiteFrom fn)
+    -- a body that ends before its Content-Length never reaches the decoders
+    if fn == "" || (has l "fault" && str l "fault" != "none") then
+      (if may then "may-panic" else "no-panic", may || obs != "panic") else
     let m := helperOutcome F fn (nat l "status") (jvalOf l)
     let agree := match m with
       | .panic => obs == "panic"
       | .nilnil => obs == "nilnil"
       | .err => obs == "err"
       | .ok => obs == "ok" || obs == "err"
+    if may then (showCls m ++ "/may-panic", agree || obs == "panic") else
     (showCls m, agree)
   | _ => ("?", false)
 
